@@ -13,6 +13,8 @@ mod tests;
 pub use crate::Result;
 pub use context::Context;
 pub use process::{Process, StatementBatch, Task, TaskLifeCycle};
+#[cfg(feature = "verif")]
+pub(crate) use queue::Signal;
 pub use runtime::Runtime;
 pub use scheduler::Scheduler;
 pub use state::TaskState;
